@@ -10,8 +10,8 @@ open MdIt.Proto
 def parseLines (t : String) : List BLine :=
   if t == "~" then [] else
   (t.splitOn ",").map (fun p => match p.splitOn ":" with
-    | [e, sc] => ⟨decBool e, sc.toInt!⟩
-    | _ => ⟨true, 0⟩)
+    | [e, sc] => { empty := decBool e, sCount := sc.toInt! }
+    | _ => { empty := true, sCount := 0 })
 
 def parseScript (t : String) : List (Nat × Nat) :=
   if t == "~" then [] else
